@@ -307,6 +307,33 @@ def lexer_facts(prop, tier, seed):
     obs.append(ob('C15:lexer:ignored-characters-in-the-built-lexer-match-the-source', ['C15'], d['lexignore'] == ign, {'built': d['lexignore']}))
     obs.append(ob('C16:lexer:illegal-characters-go-to-t_error', ['C16'], bool(d['has_errorf'])))
     obs.append(ob('C16:parser:syntax-errors-go-to-p_error', ['C16', 'C20'], d['errorfunc'] == 'p_error', {'errorfunc': d['errorfunc']}))
+    # the master regex is an ordered alternation (first alternative that matches wins, not the longest): a token
+    # whose text extends another token's text must be tried first, or `==` would lex as `=`, `=`
+    order = []
+    for item in d['lexre']:
+        for nm in item['names']:
+            if nm and nm[1] and nm[1] not in order:
+                order.append(nm[1])
+    from contracts.lexer import literal_language
+    langs = {}
+    for name, rx in regs.items():
+        ll = literal_language(rx)
+        if ll:
+            langs[name[2:]] = ll
+    bad = []
+    for a, la in langs.items():
+        for b, lb in langs.items():
+            if a == b or a not in order or b not in order:
+                continue
+            for x in la:
+                for y in lb:
+                    if y != x and y.startswith(x) and order.index(a) < order.index(b):
+                        bad.append('%s %r is tried before %s %r' % (a, x, b, y))
+    obs.append(ob('C06:lexer:longer-operator-tokens-are-tried-before-their-prefixes', ['C06', 'C15'], not bad and len(order) > 10,
+                  {'violations': bad, 'order': order}))
+    obs.append(ob('C06:lexer:string-rule-is-tried-before-the-name-rule', ['C06', 'C18'],
+                  'STRING' in order and 'NAME' in order and order.index('STRING') < order.index('NAME') and
+                  'NUMBER' in order and 'COMMENT' in order, {'order': order}))
     # the NEWLINE rule matches every separator the property lists
     nl = regs.get('t_NEWLINE')
     ok = False
@@ -325,7 +352,7 @@ extras.register(['C08', 'C04'], decimal_context)
 extras.register(['C05'], regex_timeout_constant)
 extras.register(['C11', 'C10', 'C17'], module_state)
 extras.register(['C02', 'C16'], confinement)
-extras.register(['C20', 'C15', 'C16'], lexer_facts)
+extras.register(['C20', 'C15', 'C16', 'C06', 'C18'], lexer_facts)
 
 
 LEAN_FILES = {'C01': 'Budget.lean', 'C03': 'Bound.lean', 'C10': 'Stack.lean'}
